@@ -185,8 +185,8 @@ pub fn build(repo: &Path, root: &Path, with_big: bool) -> Tree {
             // F), operation names that collide once snake-cased, selections that flatten to the
             // same response type name
             "syn_multi",
-            "schema { query: Q }\nenum Mood { HAPPY SAD }\ntype Bits { a: Int, b: Int }\ntype Author { name: String, mood: Mood, bits: Bits }\ntype Post { title: String, author: Author }\ntype Hero { name: String, friends: [Hero] }\ntype Q { feed: [Post], me(mood: Mood, moods: [Mood!]): Author, hero: Hero, heroFriends: [Hero], thing(id: ID): Post }\n",
-            "fragment G on Author { name mood bits { a } }\nfragment F on Post { title author { ...G } }\nquery Dashboard { me { ...G } feed { ...F } }\nquery Feed { feed { ...F } }\nquery getThing { thing(id: \"1\") { title } }\nquery GetThing { thing(id: \"2\") { title author { name } } }\nquery get_thing { thing { title } }\nquery Crew { hero { friends { name } } heroFriends { name } }\nquery Crew2 { hero { name friends { friends { name } } } heroFriends { friends { name } } }\nquery Deep { hero { friends { friends { friends { friends { friends { friends { name } } } } } } } }\nquery Moods($m: Mood = HAPPY, $ms: [Mood!]) { me { mood } }\n",
+            "schema { query: Q }\nenum Mood { HAPPY SAD }\nenum Tone { LOW HIGH }\nscalar Stamp\nscalar Money\ntype Bits { a: Int, b: Int }\ntype Author { name: String, mood: Mood, tone: Tone, since: Stamp, worth: Money, bits: Bits }\ntype Post { title: String, author: Author }\ntype Hero { name: String, friends: [Hero] }\ntype Q { feed: [Post], me(mood: Mood, moods: [Mood!]): Author, hero: Hero, heroFriends: [Hero], thing(id: ID): Post }\n",
+            "fragment G on Author { name mood since bits { a } }\nfragment F on Post { title author { ...G } }\nquery Dashboard { me { ...G } feed { ...F } }\nquery Feed { feed { ...F } }\nquery getThing { thing(id: \"1\") { title } }\nquery GetThing { thing(id: \"2\") { title author { name } } }\nquery get_thing { thing { title } }\nquery Crew { hero { friends { name } } heroFriends { name } }\nquery Crew2 { hero { name friends { friends { name } } } heroFriends { friends { name } } }\nquery Deep { hero { friends { friends { friends { friends { friends { friends { name } } } } } } } }\nquery Moods($m: Mood = HAPPY, $ms: [Mood!]) { me { mood } }\n",
         ),
         (
             "syn_rec",
@@ -213,6 +213,16 @@ pub fn build(repo: &Path, root: &Path, with_big: bool) -> Tree {
         fs::write(d.join("query.graphql"), query).unwrap();
         dirs.push(name.to_string());
         fixtures.push(Fixture { dir: name.to_string(), file: "schema.graphql".into(), is_schema: true, ops: vec![], big: false, deepbad: false });
+        // the same schema with its definitions in reverse order: valid for the same queries, but
+        // every type has another internal id - whatever is remembered per query document across
+        // calls must not carry ids from one schema to the other
+        let mut defs: Vec<&str> = schema.lines().filter(|l| !l.trim().is_empty()).collect();
+        let head: Vec<&str> = defs.iter().filter(|l| l.starts_with("schema ")).cloned().collect();
+        defs.retain(|l| !l.starts_with("schema "));
+        defs.reverse();
+        let permuted = head.into_iter().chain(defs).collect::<Vec<_>>().join("\n") + "\n";
+        fs::write(d.join("schema_permuted.graphql"), &permuted).unwrap();
+        fixtures.push(Fixture { dir: name.to_string(), file: "schema_permuted.graphql".into(), is_schema: true, ops: vec![], big: false, deepbad: false });
         fixtures.push(Fixture { dir: name.to_string(), file: "query.graphql".into(), is_schema: false, ops: operation_names(query), big: false, deepbad: false });
         // a sibling of exactly the same byte length (and, written in the same instant, practically
         // the same timestamps) but different content: anything that identifies files by metadata
